@@ -106,7 +106,11 @@ class InsecureHomeKitProtocol(asyncio.Protocol):
         self.transport = transport
 
     def connection_lost(self, exception: Exception) -> None:
-        self.connection._connection_lost(exception)
+        current = self.connection.transport
+        if current is None or current is getattr(self, "transport", None):
+            self.connection._connection_lost(exception)
+        # else: this protocol belongs to a connection that was already abandoned;
+        # its loss must not tear down the connection currently in use.
         self._cancel_pending_requests()
 
     def _handle_timeout(self, fut: asyncio.Future[Any]) -> None:
